@@ -26,11 +26,23 @@ def run_seed(sd):
 
 
 seeds = sorted(p for p in (HERE / "seeded").iterdir() if (p / "patch.diff").exists())
-only = sys.argv[1:]
+args = sys.argv[1:]
+# --merge-from DIR: the seeds not named on the command line keep the result recorded in DIR/seeded/<id>/meta.json (a run of this tool from a
+# snapshot of the same commit, see `vp run`), the named ones are run now, and MATRIX.md is written for all of them
+merge_from = None
+if args[:1] == ["--merge-from"]:
+    merge_from, args = pathlib.Path(args[1]), args[2:]
+only = args
+all_seeds = seeds
 if only:
     seeds = [s for s in seeds if s.name in only]
 with ThreadPoolExecutor(int(os.environ.get("MX_JOBS", "4"))) as ex:
     res = dict(ex.map(run_seed, seeds))
+if merge_from is not None:
+    for s_ in all_seeds:
+        if s_.name not in res:
+            res[s_.name] = json.load(open(merge_from / "seeded" / s_.name / "meta.json"))["detection"]
+    seeds, only = all_seeds, []
 lines = ["| seeded change | property | what | reported by its own property's check | also reported by |", "|---|---|---|---|---|"]
 missed = []
 for s in seeds:
